@@ -2112,6 +2112,9 @@ data_lookup_of_dtd_task(parsec_execution_stream_t *es,
 
         if (PARSEC_OUTPUT & op_type_on_current_flow) {
             /* If we output this copy it shall have no readers when we acquire it*/
+#if defined(PARSEC_VERIF)
+            PARSEC_VERIF_YIELD(PARSEC_VERIF_SITE_DTD);
+#endif
             if( parsec_dtd_data_copy_reader_count(copy) > 0 ) {
                 return PARSEC_HOOK_RETURN_AGAIN;
             }
@@ -3047,6 +3050,9 @@ parsec_insert_dtd_task(parsec_task_t *__this_task)
         (FLOW_OF(this_task, flow_index))->arena_index = (tile_op_type & PARSEC_GET_REGION_INFO);
 
         /* Locking the last_user of the tile */
+#if defined(PARSEC_VERIF)
+        PARSEC_VERIF_YIELD(PARSEC_VERIF_SITE_DTD);
+#endif
         parsec_dtd_last_user_lock(&(tile->last_user));
 
         READ_FROM_TILE(last_user, tile->last_user);
